@@ -184,7 +184,10 @@ def d4_compose(c1: bool, a1: bool, c2: bool, a2: bool, swap: bool) -> bool:
         fc = FileContext(Path("/d"), fp, [], [], None)
         cs = p.apply(Ctx(False), fc, None)
         if cs is not None:
-            text = apply_unified_diff(text, cs.diff)
+            try:
+                text = apply_unified_diff(text, cs.diff)
+            except Exception:  # noqa  (PatchError)
+                return False
     return fin(same_up_to_final_newline(text, fp.content.decode()))
 
 
@@ -207,6 +210,32 @@ def d3_writers(kind: int, variant: int, two: bool) -> bool:
         # newline shows up as one extra, empty context line at the end of the last hunk
         diff = _without_phantom_line(diff)
     return fin(len(fs.writes) == 1 and diff_matches(text, fs.files[path], diff))
+
+
+def d5_writers_compose(kind: int, variant: int) -> bool:
+    """Two dependency updates of ONE run against the same manifest (two dependency-adding codemods, different
+    packages), for each of the four writers: the two reported diffs, applied in order to the manifest as it was before
+    the run, give the manifest as it is on disk afterwards - which carries both requirements.
+    pre: 0 <= kind < 4 and 0 <= variant < 2
+    post: _
+    """
+    from harness.c04 import _run_writer_twice
+
+    from vlib.core import known_active
+
+    fs, diffs, exc, text, path = _run_writer_twice(kind, variant)
+    if exc is not None or len(diffs) != 2 or diffs[0] is None or diffs[1] is None:
+        return False
+    cur = text
+    for d in diffs:
+        if kind == 2 and known_active("C03/pyproject-diff-phantom-trailing-line") and d.endswith("\n "):
+            d = _without_phantom_line(d)
+        try:
+            cur = apply_unified_diff(cur, d)
+        except Exception:  # noqa  (PatchError: the diff does not apply to what the previous update left)
+            return False
+    final = fs.files[path]
+    return fin(same_up_to_final_newline(cur, final) and "defusedxml" in final and "security" in final)
 
 
 def _without_phantom_line(diff: str) -> str:
@@ -284,6 +313,7 @@ def warmup():
     d3_xml(False, True, 1, 2, False)
     for _k in range(4):
         d3_writers(_k, 0, True)
+        d5_writers_compose(_k, 1)
 
 
 SPEC = {
@@ -327,6 +357,7 @@ SPEC = {
         Xh("d3_xml", 120, 300),
         Xh("d4_compose", 120, 300),
         Xh("d3_writers", 150, 300),
+        Xh("d5_writers_compose", 150, 300),
         Xh("planted_wrong_tree", 60, 120, twin=False, expect="refuted"),
     ],
 }
